@@ -6,6 +6,7 @@ import (
 	"fmt"
 	"os"
 	"regexp"
+	"runtime"
 	"sort"
 	"strconv"
 	"testing"
@@ -151,7 +152,21 @@ func WorkerMain(t *testing.T, worldName string, world World) {
 	runs := envInt("VERIF_RUNS", 100)
 	maxSec := envInt("VERIF_MAXSEC", 0)
 	dumpHashes := os.Getenv("VERIF_DUMP_HASHES") != ""
+	trace := os.Getenv("VERIF_TRACE") != ""
 
+	if only := os.Getenv("VERIF_ONLY"); only != "" {
+		i := envInt("VERIF_ONLY", 0)
+		seed := RunSeed(base, prop, i)
+		res := world(t, prop, tier, NewChoices(seed), true)
+		for _, l := range res.Log {
+			fmt.Println(l)
+		}
+		fmt.Printf("ONLY run=%d seed=%d desc=%s\nviolation=%+v foreign=%+v harness=%s progress=%d\n", i, seed, res.Desc, res.Violation, res.Foreign, res.Harness, res.Progress)
+		runtime.GC()
+		runtime.GC()
+		time.Sleep(50 * time.Millisecond)
+		return
+	}
 	rep := &WorkerReport{
 		Property: prop, Tier: tier, BaseSeed: base, Worker: worker, Workers: workers,
 		PreemptAt: map[string]int{}, Probes: map[string]int{}, Faults: map[string]int{},
@@ -186,8 +201,16 @@ func WorkerMain(t *testing.T, worldName string, world World) {
 			break
 		}
 		seed := RunSeed(base, prop, i)
+		if trace {
+			fmt.Printf("RUN %d seed %d\n", i, seed)
+		}
 		c := NewChoices(seed)
 		res := world(t, prop, tier, c, false)
+		if trace {
+			runtime.GC()
+			runtime.GC()
+			time.Sleep(10 * time.Millisecond)
+		}
 		rep.Runs++
 		if res.Harness != "" {
 			rep.Harness = append(rep.Harness, fmt.Sprintf("run %d seed %d: %s", i, seed, res.Harness))
